@@ -16,6 +16,9 @@ const (
 )
 
 func app(f string, args ...string) string {
+	if len(args) == 0 {
+		return f
+	}
 	return "(" + f + " " + strings.Join(args, " ") + ")"
 }
 
